@@ -508,7 +508,7 @@ theorem fill_spec (read : Nat → Nat → Option Snap) (names : List Nat) (st : 
 def BCok (hb : HookBindings) (view : Nat → Snap) (bc bc' : BC) : Prop :=
   bc'.binding = bc.binding ∧ bc'.btype = bc.btype ∧ bc'.isSync = bc.isSync ∧
   (MKeys bc'.snapshots).Nodup ∧
-  (∀ n, mget bc'.snapshots n = if n ∈ getInclude hb bc.btype bc.binding then some (view n) else none) ∧
+  (∀ n, mget bc'.snapshots n = if n ∈ inclOf hb bc then some (view n) else none) ∧
   bc'.objects = (if bc.btype = .kubernetes ∧ bc.isSync = true then view bc.binding else bc.objects)
 
 def AllOk (hb : HookBindings) (view : Nat → Snap) : List BC → List BC → Prop
@@ -520,18 +520,18 @@ theorem updateOne_spec (hb : HookBindings) (read : Nat → Nat → Option Snap) 
     Ext st (updateOne hb read st bc).1 ∧
     (WF read st → WF read (updateOne hb read st bc).1) ∧
     ∀ st', Ext (updateOne hb read st bc).1 st' → BCok hb (viewOf st') bc (updateOne hb read st bc).2 := by
-  obtain ⟨e, w, nd, has, vals⟩ := fill_spec read (getInclude hb bc.btype bc.binding) st []
+  obtain ⟨e, w, nd, has, vals⟩ := fill_spec read (inclOf hb bc) st []
   unfold updateOne
   by_cases hs : bc.btype = .kubernetes ∧ bc.isSync = true
   · rw [if_pos hs]
     refine ⟨e.trans (ensure_ext read _ _), fun h => ensure_wf read _ _ (w h), ?_⟩
     intro st' he
-    have e2 := (ensure_ext read (fillSnapshots read st [] (getInclude hb bc.btype bc.binding)).1 bc.binding).trans he
+    have e2 := (ensure_ext read (fillSnapshots read st [] (inclOf hb bc)).1 bc.binding).trans he
     refine ⟨rfl, rfl, rfl, nd (by simp [MKeys]), ?_, ?_⟩
     · intro n
-      show mget (fillSnapshots read st [] (getInclude hb bc.btype bc.binding)).2 n = _
+      show mget (fillSnapshots read st [] (inclOf hb bc)).2 n = _
       rw [vals n]
-      by_cases hn : n ∈ getInclude hb bc.btype bc.binding
+      by_cases hn : n ∈ inclOf hb bc
       · simp [hn, viewOf_ext e2 n (has n hn)]
       · simp [hn, mget]
     · rw [if_pos hs]
@@ -541,9 +541,9 @@ theorem updateOne_spec (hb : HookBindings) (read : Nat → Nat → Option Snap) 
     intro st' he
     refine ⟨rfl, rfl, rfl, nd (by simp [MKeys]), ?_, ?_⟩
     · intro n
-      show mget (fillSnapshots read st [] (getInclude hb bc.btype bc.binding)).2 n = _
+      show mget (fillSnapshots read st [] (inclOf hb bc)).2 n = _
       rw [vals n]
-      by_cases hn : n ∈ getInclude hb bc.btype bc.binding
+      by_cases hn : n ∈ inclOf hb bc
       · simp [hn, viewOf_ext he n (has n hn)]
       · simp [hn, mget]
     · rw [if_neg hs]
